@@ -84,6 +84,17 @@ print(e, f, g)
     except* ValueError as eg:
         return eg
 ''',
+    'type-comments-in-odd-places': '''vals = [1,  # type: int
+        2]
+# type: (int) -> str
+def conv(a):
+    # type: (int) -> str
+    if a:  # type: bool
+        pass  # type: ignore[misc]
+    for i in vals:  # type: int
+        pass
+    return str(a)  # type: str
+''',
     'functions': '''import functools
 def deco(*a, **k):
     return lambda fn: fn
